@@ -13,12 +13,15 @@ import (
 	"fmt"
 	"os"
 	"path/filepath"
+	"strings"
 	"testing"
 
+	"github.com/benbjohnson/litestream"
 	"github.com/superfly/ltx"
 	"pgregory.net/rapid"
 
 	"verifharness/core"
+	"verifharness/inject"
 	"verifharness/lsw"
 )
 
@@ -87,6 +90,10 @@ func genC04(t *rapid.T) lsw.Case {
 		ep := lsw.Op{K: "episode", M: kind}
 		if kind != "reset-runtime" {
 			ep.X = genDownOps(t, m, kind)
+			// the storage may be briefly unreachable when litestream comes back: its first N client calls fail
+			if rapid.IntRange(0, 9).Draw(t, "flakyStart") < 3 {
+				ep.N = rapid.IntRange(1, 3).Draw(t, "flakyCalls")
+			}
 		}
 		ops = append(ops, ep)
 		step(rapid.IntRange(0, 3).Draw(t, "afterEpisode"))
@@ -139,6 +146,11 @@ func execC04(c lsw.Case) (res core.Result) {
 		panic(fmt.Sprintf("harness: new world: %v", err))
 	}
 	defer w.Cleanup()
+	var fc *inject.FaultClient
+	w.WrapClient = func(inner litestream.ReplicaClient) litestream.ReplicaClient {
+		fc = &inject.FaultClient{Inner: inner, Once: true}
+		return fc
+	}
 	if err := w.Attach(); err != nil {
 		panic(fmt.Sprintf("harness: attach: %v", err))
 	}
@@ -179,10 +191,16 @@ func execC04(c lsw.Case) (res core.Result) {
 		return s
 	}
 
+	initialised := false // has a call that initialises the current DB object (Sync, SyncAndWait, Checkpoint) returned nil since it was (re)started?
 	checkAck := func(i int, o lsw.Op) *core.Violation {
 		res.Evals++
 		mk := func(oracle, msg string) *core.Violation {
 			v := &core.Violation{Oracle: oracle, Msg: fmt.Sprintf("after step %d (%s)%s: %s", i, o, epDesc(ep), msg), Shapes: shapes(ep, oracle)}
+			if o.K == "close" && !initialised && strings.HasPrefix(oracle, "r1-") {
+				// same root cause as C01's finding: Close on a DB object that never got initialised (here: because the storage
+				// was unreachable for its first calls) returns nil without replicating
+				v.Shapes = append(v.Shapes, "close-before-init")
+			}
 			return v
 		}
 		if m := w.CheckR1(); m != nil {
@@ -279,8 +297,22 @@ func execC04(c lsw.Case) (res core.Result) {
 					return res
 				}
 			}
+			if o.M == "restart" || o.M == "reopen" {
+				initialised = false
+			}
+			if o.N > 0 && fc != nil {
+				fc.Plan = nil
+				for k := 0; k < o.N; k++ {
+					fc.Plan = append(fc.Plan, inject.Fault{Code: inject.FailBefore})
+				}
+				fc.N, fc.Enabled = 0, true
+				res.Labels = append(res.Labels, "storage-unreachable-at-restart")
+			}
 		case lsw.IsLSOp(o.K):
 			sr := w.LSStep(o)
+			if (o.K == "sync" || o.K == "syncwait" || o.K == "lsckpt") && sr.Err == nil {
+				initialised = true
+			}
 			if sr.Acked {
 				if v := checkAck(i, o); v != nil {
 					res.Violation = v
